@@ -47,20 +47,27 @@ def unit_integer_validated_value():
 # ---------------------------------------------------------------- Decimal: separator translation loop
 def unit_decimal_validated_value():
     TR = z3.Function("translated_prefix", z3.IntSort(), z3.StringSort()); FOUND = z3.Function("decimal_separator_seen_before", z3.IntSort(), z3.BoolSort())
+    STRAY = z3.Function("stray_dot_before", z3.IntSort(), z3.BoolSort())      # a '.' that is neither the decimal nor the thousands separator of the format
     def setup(ex, st):
         rng = Ref("DecimalRange"); st.heap[rng.oid] = {"_items": Opaque()}
-        dec = fresh(STR, "decimal_separator")[0]; thou = fresh(STR, "thousands_separator")[0]
-        st.pc.append(z3.Or(dec.z == ".", dec.z == ",")); st.pc.append(z3.Or(thou.z == ",", thou.z == ".", thou.z == "")); st.pc.append(dec.z != thou.z)     # DataFormat invariant (C11)
-        base_field(ex, st, "DecimalFieldFormat", {"valid_range": rng, "decimal_separator": dec, "thousands_separator": thou})
-        st.ghost.update({"dec": dec, "thou": thou})
+        ds = fresh(STR, "decimal_separator")[0]; ts = fresh(STR, "thousands_separator")[0]
+        st.pc.append(z3.Or(ds.z == ".", ds.z == ",")); st.pc.append(z3.Or(ts.z == ",", ts.z == ".", ts.z == "")); st.pc.append(ds.z != ts.z)     # DataFormat invariant (C11)
+        # the separators are looked up in the data format when the value is validated (a property row may follow the field row): no copy in the field
+        base_field(ex, st, "DecimalFieldFormat", {"valid_range": rng, "_decimal_separator": None, "_thousands_separator": None})
+        df = st.ghost["df"]; st.heap[df.oid].update({"_decimal_separator": ds, "_thousands_separator": ts})
+        fmt = lift(st.heap[df.oid]["_format"]).z; flat = z3.Or(fmt == "delimited", fmt == "fixed")
+        st.pc.append(z3.Or(fmt == "delimited", fmt == "fixed", fmt == "excel", fmt == "ods"))
+        st.ghost.update({"dec": Sym(STR, z3.If(flat, ds.z, z3.StringVal("."))), "thou": Sym(STR, z3.If(flat, ts.z, z3.StringVal("")))})
     def ch(st, i): return z3.SubString(G(st, "value"), i, 1)
     def step(st, i):
         c = ch(st, i); dec, thou = G(st, "dec"), G(st, "thou")
         return z3.If(c == dec, z3.StringVal("."), z3.If(z3.And(thou != "", c == thou), z3.StringVal(""), c))
+    def stray(st, i): return z3.And(ch(st, i) == z3.StringVal("."), G(st, "dec") != z3.StringVal("."), G(st, "thou") != z3.StringVal("."))
     def unfold(ex, st):
-        env = st.frames[-1].env; out = [TR(0) == z3.StringVal(""), FOUND(0) == False]
+        env = st.frames[-1].env; out = [TR(0) == z3.StringVal(""), FOUND(0) == False, STRAY(0) == False]
         for kz in {lift(env.get("_i0", 0)).z, lift(env.get("_i0", 0)).z - 1}:
-            out.append(z3.Implies(kz >= 0, z3.And(TR(kz + 1) == z3.Concat(TR(kz), step(st, kz)), FOUND(kz + 1) == z3.Or(FOUND(kz), ch(st, kz) == G(st, "dec")))))
+            out.append(z3.Implies(kz >= 0, z3.And(TR(kz + 1) == z3.Concat(TR(kz), step(st, kz)), FOUND(kz + 1) == z3.Or(FOUND(kz), ch(st, kz) == G(st, "dec")),
+                                                  STRAY(kz + 1) == z3.Or(STRAY(kz), stray(st, kz)))))
         return out
     def make(ctx):
         N = lambda st: z3.Length(G(st, "value"))
@@ -68,15 +75,15 @@ def unit_decimal_validated_value():
         inr = lambda ex: ex.absfun_s("in_rule_range", [sort_of(DEC)], z3.BoolSort())
         def accepted(ex, st):
             t = TR(N(st)); r = lift(st.ghost["__result__"])
-            return Sym(BOOL, z3.And(dp(ex)(t), r.z == dof(ex)(t), inr(ex)(dof(ex)(t))))
+            return Sym(BOOL, z3.And(dp(ex)(t), r.z == dof(ex)(t), inr(ex)(dof(ex)(t)), z3.Not(STRAY(N(st)))))
         def rejected(ex, st):
             i = lift(st.frames[-1].env.get("_i0", 0)).z; t = TR(N(st)); c = ch(st, i)
             bad_sep = z3.And(0 <= i, i < N(st), FOUND(i), z3.Or(c == G(st, "dec"), z3.And(G(st, "thou") != "", c == G(st, "thou"))))
-            return Sym(BOOL, z3.Or(bad_sep, z3.Not(dp(ex)(t)), z3.Not(inr(ex)(dof(ex)(t)))))
+            return Sym(BOOL, z3.Or(bad_sep, z3.And(0 <= i, i < N(st), stray(st, i)), z3.Not(dp(ex)(t)), z3.Not(inr(ex)(dof(ex)(t)))))
         c = Contract("fields.DecimalFieldFormat.validated_value", setup,
-                returns=[Clause(accepted, "accepted-only-a-number-written-with-the-format's-separators-inside-the-range-returned-as-the-Decimal-it-denotes", props=["C02"])],
-                raises={"FieldValueError": [Clause(rejected, "rejected-only-for-a-second-decimal-separator-a-thousands-separator-after-it-a-non-number-or-a-value-outside-the-range", props=["C02"])]},
-                loops={0: LoopSpec(invariants=["translated_value == TR(_i0)", "found_decimal_separator == FOUND(_i0)"], havoc={"translated_value": STR, "found_decimal_separator": BOOL, "character_to_process": STR}, unfolds=[unfold])},
+                returns=[Clause(accepted, "accepted-only-a-number-written-with-the-format's-separators-(no-other-dot)-inside-the-range-returned-as-the-Decimal-it-denotes", props=["C02"])],
+                raises={"FieldValueError": [Clause(rejected, "rejected-only-for-a-second-decimal-separator-a-thousands-separator-after-it-a-dot-that-is-no-separator-a-non-number-or-a-value-outside-the-range", props=["C02"])]},
+                loops={0: LoopSpec(invariants=["translated_value == TR(_i0)", "found_decimal_separator == FOUND(_i0)", "not STRAY(_i0)"], havoc={"translated_value": STR, "found_decimal_separator": BOOL, "character_to_process": STR}, unfolds=[unfold])},
                 expect=["return", "FieldValueError"], n_loops=1, modifies=[], raises_only_props=["C02", "C10"])
         def m_decimal(ex, st, fn, args, kw):
             v = lift(args[0]).z
@@ -84,7 +91,7 @@ def unit_decimal_validated_value():
                 if b: yield s2, Sym(DEC, dof(ex)(v))
                 else: yield s2, Raise(ex.new_builtin_exc(s2, "InvalidOperation", ["invalid literal"]))
         return {"contract": c, "callees": {"ref:DecimalRange.validate": m_range_validate_pred("in_rule_range", "dec"), "builtin:decimal.Decimal": m_decimal},
-                "spec_functions": {"TR": lambda ex, st, k: Sym(STR, TR(lift(k).z)), "FOUND": lambda ex, st, k: Sym(BOOL, FOUND(lift(k).z))},
+                "spec_functions": {"TR": lambda ex, st, k: Sym(STR, TR(lift(k).z)), "FOUND": lambda ex, st, k: Sym(BOOL, FOUND(lift(k).z)), "STRAY": lambda ex, st, k: Sym(BOOL, STRAY(lift(k).z))},
                 "assumptions": ["spec function TR(k): the first k characters with the decimal separator replaced by '.' and thousands separators removed (ground-unfolded at the loop index)",
                                 "A-DEC: decimal.Decimal(text) abstract partial function raising only InvalidOperation; valid_range.validate through the verified DecimalRange.validate contract (rejects non-finite values)",
                                 "DataFormat invariant: decimal separator in {'.', ','}, thousands separator in {',', '.', ''}, different from each other (C11)"]}
@@ -269,20 +276,28 @@ def unit_types_sweep():
         import decimal, time as _time
         from cutplace import fields, data, errors
         res = []
-        def fmt_obj(name, dec=".", thou=""):
+        def fmt_obj(name, dec=".", thou="", defer=False):
             f = data.DataFormat(name)
-            if name in ("delimited", "fixed"):
-                if dec != ".": f.set_property("decimal separator", dec)
-                if thou: f.set_property("thousands separator", thou)
-            f.validate(); return f
+            def props():
+                if name in ("delimited", "fixed"):
+                    if dec != ".": f.set_property("decimal separator", dec)
+                    if thou: f.set_property("thousands separator", thou)
+                f.validate()
+            if defer: return f, props       # the property rows of a CID may follow its field rows
+            props(); return f
         # --- Decimal: both separator conventions, all formats
         def dec_cases():
-            for name, dec, thou in (("delimited", ".", ""), ("delimited", ".", ","), ("delimited", ",", "."), ("fixed", ",", "."), ("excel", ".", ""), ("ods", ".", "")):
+            for name, dec, thou in (("delimited", ".", ""), ("delimited", ".", ","), ("delimited", ",", "."), ("fixed", ",", "."), ("excel", ".", ""), ("ods", ".", ""), ("delimited", ",", ""), ("fixed", ",", ""),
+                                    ("late:delimited", ",", "."), ("late:fixed", ",", "")):
                 for rule in ("", "-10.5...100", "0..."):
                     yield (name, dec, thou, rule)
         def dec_check(c):
             name, dec, thou, rule = c
-            fld = fields.DecimalFieldFormat("d", False, "8" if name == "fixed" else "", rule, fmt_obj(name, dec, thou))
+            if name.startswith("late:"):
+                name = name[5:]; fobj, later = fmt_obj(name, dec, thou, defer=True)
+                fld = fields.DecimalFieldFormat("d", False, "8" if name == "fixed" else "", rule, fobj); later()
+            else:
+                fld = fields.DecimalFieldFormat("d", False, "8" if name == "fixed" else "", rule, fmt_obj(name, dec, thou))
             lo, hi = (decimal.Decimal(x) if x else None for x in (rule.split("...") if rule else ("-9999999999999999999.999999999999", "9999999999999999999.999999999999")))
             plain = ["0", "1", "-1", "1.5", "-10.5", "-10.51", "100", "100.01", "99.999", "1234.5", "0.001"]
             if name != "fixed":       # numerals with more significant digits than the default decimal context keeps (28): compared and returned exactly
@@ -301,7 +316,7 @@ def unit_types_sweep():
                 except errors.FieldValueError: pass
                 except Exception as e: return {"expected": "%r rejected with a FieldValueError" % bad, "observed": repr(e)}
             return None
-        res.append(sweep("C02/bounded/Decimal fields", dec_cases(), dec_check, "bounded", "6 format / separator conventions x 3 rules x 11 numerals (+ 4 with 29-33 significant digits) written with the format's separators + malformed numerals",
+        res.append(sweep("C02/bounded/Decimal fields", dec_cases(), dec_check, "bounded", "10 format / separator conventions (two with the separators declared after the field) x 3 rules x 11 numerals (+ 4 with 29-33 significant digits) written with the format's separators + malformed numerals",
                          describe=lambda c: dict(zip(("format", "decimal_separator", "thousands_separator", "rule"), c)), function="fields.DecimalFieldFormat", unit="C02.types", props=["C02"]))
         # --- Choice / Constant
         def cc_check(c):
@@ -687,8 +702,8 @@ def unit_decimal_init():
         if args[0] is st.ghost["rule"]: st.ghost["dr"] = r; st.ghost["default_text"] = args[1] if len(args) > 1 else kw.get("default")
         yield st, r
     def c_sep(ex, st):
-        o = st.heap[st.ghost["this"].oid]; flat = z3.Or(G(st, "fmt") == "delimited", G(st, "fmt") == "fixed")
-        return Sym(BOOL, z3.And(lift(o["decimal_separator"]).z == z3.If(flat, G(st, "ds"), z3.StringVal(".")), lift(o["thousands_separator"]).z == z3.If(flat, G(st, "ts"), z3.StringVal(""))))
+        o = st.heap[st.ghost["this"].oid]
+        return Sym(BOOL, z3.BoolVal(o.get("_decimal_separator", "<unset>") is None and o.get("_thousands_separator", "<unset>") is None and "decimal_separator" not in o and "thousands_separator" not in o))
     def c_ranges(ex, st):
         g = st.ghost; o = st.heap[g["this"].oid]; dr = g["dr"]
         if dr is None or o.get("valid_range") is not dr or o.get("_length") is not g["lr"] or g["lr"] is None: return Sym(BOOL, z3.BoolVal(False))
@@ -697,7 +712,7 @@ def unit_decimal_init():
         return Sym(BOOL, z3.And(lift(o["_precision"]).z == lift(st.heap[dr.oid]["_precision"]).z, lift(o["_scale"]).z == lift(st.heap[dr.oid]["_scale"]).z))
     def make(ctx):
         c = Contract("fields.DecimalFieldFormat.__init__", setup,
-                returns=[Clause(c_sep, "separators-are-the-data-format's-for-delimited-and-fixed-data-and-'.'-/-none-for-spreadsheet-formats", props=["C02", "C16"]),
+                returns=[Clause(c_sep, "no-separator-is-copied-into-the-field:-both-overrides-start-unset-so-that-the-data-format-decides-at-validation-time", props=["C02", "C11", "C16"]),
                          Clause(c_ranges, "valid-range-is-DecimalRange(rule,-default-range)-length-is-Range(length_text)-precision-and-scale-are-the-range's", props=["C02", "C03", "C19"]), _c_empty_value(None)],
                 raises={"InterfaceError": [Clause("range_failed", "refused-only-for-a-broken-rule-or-length-text", props=["C02", "C09"])]},
                 expect=["return", "InterfaceError"], raises_only_props=["C02", "C10"])
@@ -705,6 +720,27 @@ def unit_decimal_init():
                 "assumptions": ["Range(text) / DecimalRange(text, default) are used through their verified contracts (contracts/ranges_init.py, ranges_dinit.py)",
                                 "DEFAULT_DECIMAL_RANGE_TEXT is the module constant of cutplace.ranges (read natively)"]}
     return ProofUnit("fields.DecimalFieldFormat.__init__", "DecimalFieldFormat.__init__: separators by data format, valid range from the rule (or the default decimal range), precision / scale", ["C02", "C16", "C19", "C10"], make, None)
+
+
+def unit_decimal_separators():
+    """the two separator properties of a Decimal field: the data format's current values for delimited and fixed data, '.' / none for the spreadsheet formats"""
+    def mk(attr, spreadsheet):
+        def setup(ex, st):
+            df = Ref("DataFormat"); fmt = fresh(STR, "format")[0]; cur = fresh(STR, "current")[0]
+            st.heap[df.oid] = {"_format": fmt, "_" + attr: cur}
+            st.pc.append(z3.Or(fmt.z == "delimited", fmt.z == "fixed", fmt.z == "excel", fmt.z == "ods"))
+            self = Ref("DecimalFieldFormat"); st.heap[self.oid] = {"_data_format": df, "_decimal_separator": None, "_thousands_separator": None}
+            st.frames[-1].env.update({"self": self}); st.ghost.update({"fmt": fmt, "cur": cur})
+        def c(ex, st):
+            flat = z3.Or(G(st, "fmt") == "delimited", G(st, "fmt") == "fixed")
+            return Sym(BOOL, lift(st.ghost["__result__"]).z == z3.If(flat, G(st, "cur"), z3.StringVal(spreadsheet)))
+        return Contract("fields.DecimalFieldFormat." + attr, setup,
+                        returns=[Clause(c, "the-%s-is-the-data-format's-current-one-for-delimited-and-fixed-data-and-%r-for-spreadsheet-formats" % (attr.replace("_", "-"), spreadsheet), props=["C02", "C11", "C16"])],
+                        expect=["return"], n_loops=0, modifies=[])
+    def make(ctx):
+        return [{"contract": mk("decimal_separator", "."), "label": "decimal separator", "assumptions": ["no explicit override set on the field (the constructor leaves both unset: fields.DecimalFieldFormat.__init__)"]},
+                {"contract": mk("thousands_separator", ""), "label": "thousands separator"}]
+    return ProofUnit("fields.DecimalFieldFormat.separators", "Decimal separators are read from the data format at validation time (so that property rows after the field rows count)", ["C02", "C11", "C16"], make, None)
 
 
 def unit_text_init():
